@@ -58,14 +58,14 @@ class FnSpec:
 
 
 def parse_sidecar(path):
-    spec = {"unit": None, "rules": [], "preamble": [], "postamble": [], "items": [], "path": path, "crate_attrs": []}
+    spec = {"unit": None, "rules": [], "preamble": [], "postamble": [], "items": [], "path": path, "crate_attrs": [], "rlimit": None}
     cur_item = None
     cur_fn = None
     cur_site = None
     for ln, raw in enumerate(open(path).read().split("\n"), 1):
         line = raw.rstrip()
         s = line.strip()
-        if cur_site is not None and not (s.startswith("@") or s.startswith("item ") or s.startswith("fn ")
+        if cur_site is not None and not (s.startswith("@") or s.startswith("item ") or s.startswith("use_item ") or s.startswith("fn ")
                                          or s in ("keep_attrs", "selfmut", "literals") or s.startswith("result ")
                                          or s.startswith("refpat ")):
             cur_site.append(raw)
@@ -74,6 +74,8 @@ def parse_sidecar(path):
             continue
         if s.startswith("unit "):
             spec["unit"] = s[5:].strip()
+        elif s.startswith("rlimit "):
+            spec["rlimit"] = float(s.split()[1])
         elif s.startswith("crate_attr "):
             spec["crate_attrs"].append(s[11:].strip())
         elif s == "rules" or s.startswith("rules "):
@@ -82,6 +84,16 @@ def parse_sidecar(path):
             spec["preamble"].append(s.split(None, 1)[1])
         elif s.startswith("postamble "):
             spec["postamble"].append(s.split(None, 1)[1])
+        elif s.startswith("use_item "):
+            # reuse an item (with its contracts and hints) from another sidecar: the function is
+            # re-verified here against the same contract text, so the two units cannot drift apart
+            other, _, ipath = s[9:].partition("::")
+            osp = parse_sidecar(os.path.join(os.path.dirname(path), other.strip()))
+            hits = [it for it in osp["items"] if it.path == ipath.strip()]
+            if len(hits) != 1:
+                raise Undecided("%s:%d: use_item: %d matches" % (path, ln, len(hits)))
+            spec["items"].append(hits[0])
+            cur_item = cur_fn = cur_site = None
         elif s.startswith("item "):
             src, _, p = s[5:].partition("::")
             cur_item = ItemSpec(src.strip(), p.strip())
@@ -257,6 +269,48 @@ def instrument_fn(ftext, fspec, ed, base, rules, label):
             if hit is None:
                 raise Undecided("%s: lost anchor: call %s #%d not found in block" % (label, m.group(2), want_n))
             ed.insert(base + st[hit].start, take(key) + "\n")
+            continue
+        m = re.match(r"closure (\d+)$", key)
+        if m:
+            # k-th closure of the fn: `|params| BODY` -> `|params| SPEC { BODY }` (two pure insertions)
+            k = int(m.group(1))
+            cl = []
+            q = an.body_open + 1
+            while q < an.body_close:
+                tq = st[q]
+                if rsx.is_p(tq, "|") and (rsx.is_id(st[q - 1], "move") or rsx.is_id(st[q - 1], "return")
+                                          or (st[q - 1].kind == "punct" and st[q - 1].text in "(,={;")):
+                    if rsx.is_p(st[q + 1], "|"):
+                        pe = q + 1
+                    else:
+                        pe = q + 1
+                        while not rsx.is_p(st[pe], "|"):
+                            if st[pe].kind == "punct" and st[pe].text in rsx.OPEN:
+                                pe = rsx.match_close(st, pe)
+                            pe += 1
+                    b0 = pe + 1
+                    if rsx.is_p(st[b0], "{"):
+                        b1 = rsx.match_close(st, b0)
+                    else:
+                        b1 = b0
+                        while True:
+                            tb = st[b1]
+                            if tb.kind == "punct" and tb.text in rsx.OPEN:
+                                b1 = rsx.match_close(st, b1) + 1
+                                continue
+                            if rsx.is_p(tb, ",") or rsx.is_p(tb, ";") or (tb.kind == "punct" and tb.text in rsx.CLOSE):
+                                break
+                            b1 += 1
+                        b1 -= 1
+                    cl.append((b0, b1))
+                    q = pe + 1
+                    continue
+                q += 1
+            if k >= len(cl):
+                raise Undecided("%s: closure %d not found (fn has %d)" % (label, k, len(cl)))
+            b0, b1 = cl[k]
+            ed.insert(base + st[b0].start, take(key).strip() + " { ")
+            ed.insert(base + st[b1].end, " }")
             continue
         m = re.match(r"(return|break) (\d+)$", key)
         if m:
@@ -552,3 +606,22 @@ def obligation_id(f):
     prim = [s for s in f["spans"] if s["primary"]] or f["spans"]
     clause = re.sub(r"\s+", " ", prim[0]["text"]).strip() if prim else ""
     return "%s | %s | %s" % (f["item"], f["message"], clause[:160])
+
+
+def split_canaries(name, errors, fails, fn_times):
+    """Vacuity canaries: functions named canary_* (postamble) end in `assert(false)` after exercising the
+    assumed contracts; each MUST fail.  Returns (errors, fails, fn_times, n_canaries) without them;
+    raises Undecided if a canary verified (contradictory assumptions)."""
+    canaries = [t for t in fn_times if "canary_" in t["function"]]
+    bad = [t["function"] for t in canaries if t["success"]]
+    if bad:
+        raise Undecided("unit %s: vacuity canary %s verified -- assumed contracts are inconsistent" % (name, bad))
+    real = []
+    for f in fails:
+        prim = [x for x in f["spans"] if x["primary"]] or f["spans"]
+        if f["item"] is None and f["message"] == "assertion failed" and prim and prim[0]["text"].strip() == "false":
+            continue
+        real.append(f)
+    if len(fails) - len(real) != len(canaries):
+        raise Undecided("unit %s: %d canaries but %d canary failures" % (name, len(canaries), len(fails) - len(real)))
+    return (errors or 0) - len(canaries), real, [t for t in fn_times if "canary_" not in t["function"]], len(canaries)
